@@ -339,7 +339,7 @@ def run(args, repo, jobs, seed, workdir, outdir):
         return 1
     if infra_msgs:
         for m in infra_msgs:
-            print("INFRA-ERROR: " + m, flush=True)
+            print("INFRA-ERROR: " + "\n".join(m.split("\n")[:12]), flush=True)
         return 2
     if agg["runs"] == 0:
         infra("no runs executed")
